@@ -112,7 +112,3 @@ func cmdRun(args []string) {
 	fmt.Printf("%d/%d discharged in %.1fs (solver time %.1fs) %v\n", nd, len(obls), time.Since(t1).Seconds(), d.total, d.stats)
 }
 
-func cmdCheck(args []string) {
-	fmt.Fprintln(os.Stderr, "not yet")
-	os.Exit(2)
-}
